@@ -5,8 +5,9 @@ import signal
 from enum import Enum
 from qbee import grammar
 from pyparsing.exceptions import ParseException
+from qbee.exceptions import SyntaxError
 from .instrs import op_code_to_instr
-from .utils import format_number
+from .utils import format_number, parse_number
 from .cell import CellType, CellValue, Reference
 from .trap import TrapCode, Trapped
 
@@ -1244,6 +1245,13 @@ class QvmCpu:
             value = float(literal.eval())
         except ParseException:
             value = 0.0
+        except SyntaxError:
+            # a numeral the rules for literals reject (for example one
+            # too large for the type its spelling implies); VAL always
+            # yields a DOUBLE, so read it as one
+            value = parse_number(string, prefix=True)
+            if value is None:
+                value = 0.0
         self.push(CellType.DOUBLE, value)
 
     def _exec_sign(self):
